@@ -81,6 +81,14 @@ TZ_SETTINGS = [
     ["EST-10EDT,M10.1.0,M4.1.0/3", ["EST", "EDT"], [2021, 4, 4, 2, 30]],
     ["CET-2CEST-4,M3.5.0,M10.5.0/3", ["CET", "CEST"], None],
 ]
+# a wall time [y,m,d,H,M] that does not exist under the setting (inside the
+# spring-forward hour of 2021)
+GAPS = {
+    "EST5EDT,M3.2.0,M11.1.0": [2021, 3, 14, 2, 30],
+    "CET-1CEST,M3.5.0,M10.5.0/3": [2021, 3, 28, 2, 30],
+    "NZST-12NZDT,M9.5.0,M4.1.0/3": [2021, 9, 26, 2, 30],
+    "EST-10EDT,M10.1.0,M4.1.0/3": [2021, 10, 3, 2, 30],
+}
 CLOCKS = [946684799.0, 946684800.0, 1709164800.0, 1e9, 1735689599.0,
           1743379200.0, 1706745600.0, 1711843200.0]
 TZINFOS_NAMES = ["BRST", "XYZT", "QWE", "ZZ"]
@@ -131,7 +139,8 @@ def R_fields(rng):
 
 def gen_zone(rng):
     kind = rng.choice(["tzinfos_map", "tzinfos_map", "tzinfos_callable",
-                       "local", "local", "local_ambiguous", "utc", "utc",
+                       "local", "local", "local_ambiguous", "local_gap",
+                       "utc", "utc",
                        "numeric", "numeric_named", "gmt_plus", "unknown",
                        "tzinfos_over_local", "tzinfos_over_utc", "none"])
     op = ["zone", kind, [2003, rng.randrange(1, 13), rng.randrange(1, 29),
@@ -142,7 +151,7 @@ def gen_zone(rng):
                 "tzinfos_over_utc"):
         op.append(rng.choice(["tzinfo", "int", "int0", "str", "none"]))
         op.append(rng.choice(TZINFOS_NAMES))
-    elif kind in ("local", "local_ambiguous"):
+    elif kind in ("local", "local_ambiguous", "local_gap"):
         op.append(rng.randrange(2))
     elif kind == "utc":
         op.append(rng.choice([" UTC", " Z", "Z", " GMT", " z", " +00:00",
@@ -529,12 +538,22 @@ def do_zone(env, ctx, op):
             tag = "tz.tzinfos_map"
         text = base + " " + name
         expect = ("tzinfos", vkind, name, val)
-    elif kind in ("local", "local_ambiguous"):
+    elif kind in ("local", "local_ambiguous", "local_gap"):
         amb = TZ_SETTINGS[env.tzi][2]
         lnames = TZ_SETTINGS[env.tzi][1]
         if not lnames:
             return False
-        if kind == "local_ambiguous":
+        if kind == "local_gap":
+            # a wall time inside the hour skipped when daylight time starts
+            # (found with glibc): the text's wall time must come back as
+            # written, local zone attached, whatever it "means"
+            gap = GAPS.get(TZ_SETTINGS[env.tzi][0])
+            if gap is None:
+                return False
+            wall = datetime.datetime(*gap)
+            base = "%04d-%02d-%02d %02d:%02d" % tuple(gap)
+            tag = "tz.local_gap_hour"
+        elif kind == "local_ambiguous":
             if amb is None:
                 return False
             wall = datetime.datetime(*amb)
@@ -546,7 +565,8 @@ def do_zone(env, ctx, op):
         if name not in names_local:
             return False
         text = base + " " + name
-        expect = ("local", name, kind == "local_ambiguous")
+        expect = ("local", name, kind == "local_ambiguous") \
+            if kind != "local_gap" else ("local_gap", name)
     elif kind == "utc":
         form = op[4]
         text = base + form
@@ -657,6 +677,8 @@ def do_zone(env, ctx, op):
         ok = isinstance(got.tzinfo, tz.tzoffset) and \
             got.utcoffset().total_seconds() == off and \
             got.tzname() == name
+    elif k == "local_gap":
+        ok = isinstance(got.tzinfo, tz.tzlocal)
     elif k == "local":
         _, name, ambiguous = expect
         ok = isinstance(got.tzinfo, tz.tzlocal)
